@@ -646,7 +646,12 @@ def install() -> None:
             # (a fault outside any simulated world: e.g. while an error
             # message is being formatted)
             eno = hook(file, mode)
-            if eno:
+            if isinstance(eno, str):
+                # (the process runs under another locale: text files are
+                # decoded with this encoding unless one is asked for)
+                if "b" not in mode and "encoding" not in k and len(a) < 2:
+                    return real.open(file, mode, *a, encoding=eno, **k)
+            elif eno:
                 raise OSError(eno, os.strerror(eno), os.fspath(file))
         w = _world_for(file)
         if w is None:
